@@ -98,9 +98,10 @@ type ovfCtx struct {
 	pkg         *ssa.Package
 	depth       int
 	condDepth   int
-	lits        map[string]bool // truth values of plain conditions known on the path being read
-	opaqueSteps string          // some accumulation of the function sits under a guard computed by a call
-	opaqueArg   string          // set when a parameter's range could not be read because a call site passes the result of a call
+	lits        map[string]bool             // truth values of plain conditions known on the path being read
+	override    map[*ssa.Parameter]*big.Int // a parameter fixed to the constant one call site passes on one path
+	opaqueSteps string                      // some accumulation of the function sits under a guard computed by a call
+	opaqueArg   string                      // set when a parameter's range could not be read because a call site passes the result of a call
 	fn          *ssa.Function
 	facts       map[*ssa.BasicBlock][]ovfFact
 	terms       map[ssa.Value]string
@@ -999,6 +1000,10 @@ func ovfConversions(r *core.Run, c *ovfCtx, sp ovfSpec) {
 			if !ok || tb.Kind() != types.Int64 {
 				continue
 			}
+			if call, idx := callResult(cv.X); call != nil {
+				c.convOfCallResult(r, sp, cv, call, idx)
+				continue
+			}
 			phi := derivesFromPhi(cv.X, map[ssa.Value]bool{})
 			if phi == nil || !phiAccumulates(phi) {
 				continue
@@ -1161,6 +1166,9 @@ func phiAccumulates(phi *ssa.Phi) bool {
 // paramRange bounds a parameter of an unexported, never address-taken function by the arguments of its call sites in
 // the package (each judged under the facts of its own call site; two levels deep). Anything else: unknown.
 func (c *ovfCtx) paramRange(p *ssa.Parameter) (*big.Int, *big.Int) {
+	if v, ok := c.override[p]; ok {
+		return v, v
+	}
 	fn := p.Parent()
 	if c.pkg == nil || c.depth >= 2 || fn == nil || fn.Object() == nil || fn.Object().Exported() || fn.Signature.Recv() != nil || typeMax(p.Type()) == nil {
 		return nil, nil
@@ -1353,4 +1361,233 @@ func maxStr(a, b string) string {
 		return b
 	}
 	return a
+}
+
+// ---------------------------------------------------------------- conversions of a helper's result
+
+func callResult(v ssa.Value) (*ssa.Call, int) {
+	switch x := v.(type) {
+	case *ssa.Extract:
+		if c, ok := x.Tuple.(*ssa.Call); ok {
+			return c, x.Index
+		}
+	case *ssa.Call:
+		return x, 0
+	}
+	return nil, 0
+}
+
+// convOfCallResult: `n, k := parseDigits(b, limit); ... int64(n)`. The helper's result is bounded with its limit
+// parameter fixed to the constant this call site passes on the path at hand (a limit chosen per sign is a phi: the edge
+// taken on the path decides it), and the conversion is judged on every feasible acyclic path from the function's entry.
+// Anything that is not resolved exactly — a limit computed by a call, a loop on the way, a helper that does not
+// accumulate — leaves the conversion unjudged (no obligation): only a fully resolved path can be reported.
+func (c *ovfCtx) convOfCallResult(r *core.Run, sp ovfSpec, cv *ssa.Convert, call *ssa.Call, idx int) {
+	g := call.Call.StaticCallee()
+	if g == nil || c.pkg == nil || g.Pkg != c.pkg || g.Object() == nil || g.Object().Exported() || len(g.Blocks) == 0 || g.Signature.Recv() != nil {
+		return
+	}
+	// the helper must carry an unsigned accumulation to that result
+	accum := false
+	for _, b := range g.Blocks {
+		for _, in := range b.Instrs {
+			if ret, ok := in.(*ssa.Return); ok && idx < len(ret.Results) {
+				if ph := derivesFromPhi(ret.Results[idx], map[ssa.Value]bool{}); ph != nil && phiAccumulates(ph) {
+					accum = true
+				}
+			}
+		}
+	}
+	if !accum {
+		return
+	}
+	maxI := new(big.Int).Sub(pow2(63), big.NewInt(1))
+	need, what := maxI, "MaxInt64"
+	if refs := cv.Referrers(); refs != nil && len(*refs) > 0 {
+		allNeg := true
+		for _, u := range *refs {
+			if un, ok := u.(*ssa.UnOp); !ok || un.Op != token.SUB {
+				allNeg = false
+			}
+		}
+		if allNeg {
+			need, what = pow2(63), "2^63 (negated)"
+		}
+	}
+	type lit struct {
+		cond  ssa.Value
+		truth bool
+	}
+	entry := c.fn.Blocks[0]
+	ok := true
+	paths, feasible := 0, 0
+	worst := big.NewInt(0)
+	worstPath := ""
+	onPath := map[*ssa.BasicBlock]bool{}
+	var walk func(cur *ssa.BasicBlock, chain []*ssa.BasicBlock, lits []lit, facts []ovfFact)
+	// resolve a value on a path given as the chain of blocks from the conversion back to the entry
+	var resolve func(v ssa.Value, chain []*ssa.BasicBlock, depth int) *big.Int
+	resolve = func(v ssa.Value, chain []*ssa.BasicBlock, depth int) *big.Int {
+		if depth > 8 {
+			return nil
+		}
+		if k := ovfConst(v); k != nil {
+			return k
+		}
+		switch x := v.(type) {
+		case *ssa.Phi:
+			for i, b := range chain {
+				if b == x.Block() && i+1 < len(chain) {
+					for j, p := range b.Preds {
+						if p == chain[i+1] {
+							return resolve(x.Edges[j], chain, depth+1)
+						}
+					}
+				}
+			}
+		case *ssa.BinOp:
+			a, b := resolve(x.X, chain, depth+1), resolve(x.Y, chain, depth+1)
+			tm := typeMax(x.Type())
+			if a == nil || b == nil || tm == nil {
+				return nil
+			}
+			switch x.Op {
+			case token.ADD:
+				if s := new(big.Int).Add(a, b); s.Cmp(tm) <= 0 {
+					return s
+				}
+			case token.SUB:
+				if a.Cmp(b) >= 0 {
+					return new(big.Int).Sub(a, b)
+				}
+			}
+		}
+		return nil
+	}
+	walk = func(cur *ssa.BasicBlock, chain []*ssa.BasicBlock, lits []lit, facts []ovfFact) {
+		if !ok || paths > 1024 {
+			return
+		}
+		chain = append(chain, cur)
+		if cur == entry {
+			paths++
+			seen := map[string]bool{}
+			for _, l := range lits {
+				// a boolean phi (neg := false; if ... { neg = b[0] == '-' }) means, on this path, the value of the edge taken
+				cond, truth := l.cond, l.truth
+				for d := 0; d < 8; d++ {
+					if un, isNot := cond.(*ssa.UnOp); isNot && un.Op == token.NOT {
+						cond, truth = un.X, !truth
+						continue
+					}
+					ph, isPhi := cond.(*ssa.Phi)
+					if !isPhi {
+						break
+					}
+					var next ssa.Value
+					for i, b := range chain {
+						if b == ph.Block() && i+1 < len(chain) {
+							for j, p := range b.Preds {
+								if p == chain[i+1] {
+									next = ph.Edges[j]
+								}
+							}
+						}
+					}
+					if next == nil {
+						break
+					}
+					cond = next
+				}
+				if k, isConst := cond.(*ssa.Const); isConst && k.Value != nil && k.Value.Kind() == constant.Bool {
+					if constant.BoolVal(k.Value) != truth {
+						return // infeasible
+					}
+					continue
+				}
+				key, tr, good := c.literal(cond, truth)
+				if !good {
+					continue
+				}
+				if v, dup := seen[key]; dup && v != tr {
+					return
+				}
+				seen[key] = tr
+			}
+			feasible++
+			over := map[*ssa.Parameter]*big.Int{}
+			for i, a := range call.Call.Args {
+				if i >= len(g.Params) || typeMax(g.Params[i].Type()) == nil {
+					continue
+				}
+				k := resolve(a, chain, 0)
+				if k == nil {
+					ok = false
+					return
+				}
+				over[g.Params[i]] = k
+			}
+			gc := &ovfCtx{pkg: c.pkg, fn: g, facts: map[*ssa.BasicBlock][]ovfFact{}, terms: map[ssa.Value]string{}, visiting: map[*ssa.Phi]int{}, override: over}
+			ub := big.NewInt(0)
+			for _, b := range g.Blocks {
+				if ret, isRet := b.Instrs[len(b.Instrs)-1].(*ssa.Return); isRet && idx < len(ret.Results) {
+					u := gc.upper(ret.Results[idx], gc.factsAt(b))
+					if u == nil {
+						ok = false
+						return
+					}
+					ub = maxBig(ub, u)
+				}
+			}
+			// comparisons of the result with constants met on the path (`MaxInt64 < n` refused after the call)
+			xt := c.term(cv.X)
+			for _, f := range facts {
+				if c.term(f.lhs) != xt {
+					continue
+				}
+				if k := ovfConst(f.rhs); k != nil {
+					if f.strict {
+						k = new(big.Int).Sub(k, big.NewInt(1))
+					}
+					ub = minBig(ub, k)
+				}
+			}
+			if ub.Cmp(worst) > 0 {
+				worst = ub
+				worstPath = ""
+				for _, b := range chain {
+					worstPath += fmt.Sprintf(" b%d", b.Index)
+				}
+			}
+			return
+		}
+		onPath[cur] = true
+		for _, p := range cur.Preds {
+			if onPath[p] {
+				ok = false // a loop on the way
+				break
+			}
+			l2, f2 := lits, facts
+			if iff, isIf := p.Instrs[len(p.Instrs)-1].(*ssa.If); isIf && p.Succs[0] != p.Succs[1] {
+				l2 = append(append([]lit{}, lits...), lit{iff.Cond, p.Succs[0] == cur})
+				f2 = append(append([]ovfFact{}, facts...), c.condFacts(iff.Cond, p.Succs[0] == cur)...)
+			}
+			walk(p, chain, l2, f2)
+		}
+		delete(onPath, cur)
+	}
+	walk(cv.Block(), nil, nil, nil)
+	if !ok || paths > 1024 || feasible == 0 {
+		r.Count("conversions of a helper result left unjudged", 1)
+		return
+	}
+	key := fmt.Sprintf("strconv.%s conversion of the result of %s to int64 is exact", sp.name, g.Name())
+	if need.Cmp(maxI) > 0 {
+		key += " (negated)"
+	}
+	if worst.Cmp(need) <= 0 {
+		r.OK(key, cv.Pos(), fmt.Sprintf("%d paths, %d feasible; with the limit each path passes the result is at most %s <= %s", paths, feasible, worst, what))
+	} else {
+		r.Fail(key, cv.Pos(), fmt.Sprintf("on the path%s (conversion back to entry) the helper is called with a limit that lets its result reach %s > %s: the conversion changes the value (a per-sign limit reaches the wrong sign)", worstPath, worst, what))
+	}
 }
